@@ -5,7 +5,7 @@ from absn import *
 import common as C
 
 PROP = 'C14'
-LEAN_MODULES = ['PMV.Props.C14', 'PMV.Props.C14Gen', 'PMV.Gen.TvlRed', 'PMV.Lemmas.RedFold']
+LEAN_MODULES = ['PMV.Props.C14', 'PMV.Props.C14Gen', 'PMV.Gen.TvlRed', 'PMV.Lemmas.RedFold', 'PMV.Model.CmpMeta']
 PARALLEL = True
 MANIFEST = {
     'text': 'Kernel-checked theorems (PMV/Props/C14.lean) that the code-shaped element functions and lane reductions of the '
@@ -15,7 +15,7 @@ MANIFEST = {
             'operands to the real polymath code and to the compiled model and diffs canonical outputs (exhaustive over '
             '{T,F,masked} arrays; all representations; all axes).',
     'design': 'DESIGN.md §3 C14',
-    'technique': 'Lean 4 proof (truth tables by case analysis, lanes by induction; element functions regenerated from the source by a translator and re-proved by decide) + model/code correspondence',
+    'technique': 'Lean 4 proof (truth tables by case analysis, lanes by induction; element functions, lane reductions and the comparison operators regenerated from the source by a translator and re-proved by decide / fold induction) + model/code correspondence',
     'note': 'Trusted: Lean kernel; hand-written model Model/Logic3.lean (checked against the code by the correspondence run); '
             'NumPy axis handling.',
 }
